@@ -762,6 +762,11 @@ class HandshakeSettings(object):
             raise ValueError("Session ticket encryption keys must be 16 or 32"
                              "bytes long")
 
+        if other.ticketCipher == "chacha20-poly1305" and \
+                HandshakeSettings._not_allowed_len(other.ticketKeys, [32]):
+            raise ValueError("Session ticket encryption keys must be 32 "
+                             "bytes long for chacha20-poly1305")
+
         if not 0 < other.ticketLifetime <= 7 * 24 * 60 * 60:
             raise ValueError("Ticket lifetime must be a positive integer "
                              "smaller or equal 604800 (7 days)")
